@@ -408,3 +408,16 @@ def sold_in_thirds(rng: random.Random, asset: str = "AAA") -> Dict[str, Any]:
             b.dispose(t, part, rng.randint(50, 900), ttype=rng.choice(("SELL", "SELL", "GIFT", "LOST")))
             t += timedelta(days=rng.randint(1, 90))
     return b.done(rng, shuffle=rng.random() < 0.5)
+
+
+def stale_with_fee_overdraft(rng: random.Random, asset: str = "AAA") -> Dict[str, Any]:
+    """An out-row whose exchange-supplied crypto_out_with_fee cell is smaller than amount + fee, on an account that the real
+    amount overdraws: the matcher consumes the supplied figure (lots stay partly unsold), the balance replay debits amount +
+    fee (every account ends <= 0). Only acceptable with -n, and then it must run to completion (FX7)."""
+    b = HB(asset=asset, exchanges=EXCHANGES[:2], holders=HOLDERS[:1])
+    t = T(rng.randint(2016, 2022), rng.randint(1, 12), rng.randint(1, 28))
+    bought = Decimal(rng.choice((10, 4, "2.5")))
+    b.acquire(t, bought, rng.randint(50, 500))
+    over = bought + Decimal(rng.choice((1, 2, "0.5")))
+    b.dispose(t + timedelta(days=rng.randint(5, 400)), over, rng.randint(50, 500), cout_wf=dstr(bought / 2))
+    return b.done(rng)
